@@ -4,8 +4,8 @@ import vf
 
 META = dict(
     engine='RingBuffer.tla',
-    technique='TLA+ spec RingBuffer.tla (bounded queue refined by head/tail/data) model-checked by TLC (plus Apalache: size/empty/full agreement inductive on the abstraction RingBufferAbs.tla for unbounded capacity, refinement checked by TLC); every generated transition/path replayed on octet_ring and a uint32_t instantiation; recorded random histories validated by TLC (RingBufferTrace.tla)',
-    level='TLC explores all reachable (head, tail, data, override, queue) states for capacities up to the bound over a two-value alphabet and checks queue refinement, size/empty/full agreement and both iterator invariants in each; every transition of that graph, all paths to a fixed depth and random walks are executed on the real macros (two element types, exact-size blocks under ASan) comparing return value, size/empty/full and both iterator sequences; long random histories at larger capacities are validated by TLC.',
+    technique='TLA+ spec RingBuffer.tla (bounded queue refined by head/tail/data) model-checked by TLC (plus Apalache: size/empty/full agreement inductive on the abstraction RingBufferAbs.tla for unbounded capacity, refinement checked by TLC); every generated transition/path replayed on octet_ring, a uint32_t and a double instantiation; recorded random histories validated by TLC (RingBufferTrace.tla)',
+    level='TLC explores all reachable (head, tail, data, override, queue) states for capacities up to the bound over a two-value alphabet and checks queue refinement, size/empty/full agreement and both iterator invariants in each; every transition of that graph, all paths to a fixed depth and random walks are executed on the real macros (three element types: octets, uint32_t, double; exact-size blocks under ASan) comparing return value, size/empty/full and both iterator sequences; long random histories at larger capacities are validated by TLC.',
     note='Trusted: TLC, harness/ring.c (projection by the public size/empty/full/iterator API only), ASan. Capacity 0 is outside the API contract.',
 )
 
@@ -19,9 +19,9 @@ def big_histories():
 
 def histories(rnd, count, nops):
     for _ in range(count):
-        ty = rnd.choice([8, 32])
+        ty = rnd.choice([8, 32, 64])
         cap = rnd.choice([1, 2, 3, 5, 8, 16, 31, 64, 257])
-        top = 255 if ty == 8 else 2 ** 31 - 1
+        top = 255 if ty == 8 else 2 ** 31 - 1        # (a double holds x + 0.5 exactly up to 2^52)
         sc = ['init %d %d' % (cap, ty)]
         pput = rnd.choice([0.35, 0.5, 0.7])
         for _ in range(nops):
